@@ -209,10 +209,6 @@ func (w *walker) param(obj *dg.Type, prim *dg.Attr, e dg.MapEntry, loc string) {
 			if f.A.Sec != nil && (f.A.Sec.Fn == "Username" || f.A.Sec.Fn == "Password") {
 				w.f["basic-auth-credential-mapped"] = true
 			}
-			// the example length of a map parameter can be drawn as 0 (MinLength(0), or MaxLength below 3 alone)
-			if v := f.A.V; v != nil && t.Kind == "map" && ((v.MinLen != nil && *v.MinLen == 0) || (v.MinLen == nil && v.MaxLen != nil && *v.MaxLen < 3)) {
-				w.f["map-param-maxlength-below-3"] = true
-			}
 		}
 	} else if prim != nil {
 		t = &prim.T
@@ -534,8 +530,7 @@ type rule struct {
 
 var rules = []rule{
 	{"sized-int-enum-array-elements", "sized-int-enum-array-elements", []string{"gen-panic"}, nil, `reflect\.Set: value of type int is not assignable to type u?int(32|64)? @ expr\.\(\*Array\)\.MakeSlice`},
-	{"map-key-not-primitive-cli-example", "map-key-not-primitive", []string{"gen-panic"}, nil, `index out of range \[0\] with length 0 @ codegen/cli\.jsonExample`},
-	{"map-param-maxlength-cli-example", "map-param-maxlength-below-3", []string{"gen-panic"}, nil, `index out of range \[0\] with length 0 @ codegen/cli\.jsonExample`},
+	{"map-key-not-comparable", "map-key-not-primitive", []string{"build-error"}, nil, `invalid map key type`},
 	{"int-bounds-less-than-one-apart", "int-bounds-less-than-one-apart", []string{"gen-panic"}, nil, `integer divide by zero @ expr\.byMinMax`},
 	{"array-maxlength-below-two", "array-maxlength-below-two", []string{"gen-panic"}, nil, `makeslice: len out of range @ expr\.byLength`},
 	{"bound-outside-32-bit-range", "bound-outside-32-bit-range", []string{"build-error"}, nil, `truncated to u?int32|overflows u?int32`},
@@ -554,7 +549,7 @@ var rules = []rule{
 	{"error-name-reused-with-different-type", "error-name-reused-with-different-type", []string{"build-error"}, []string{"type-mismatch", "undefined", "undefined-field"}, `encode_decode\.go|types\.go`},
 	{"collection-of-user-type-body-helper", "collection-of-user-type-body-in-multi-method-service", []string{"build-error"}, []string{"undefined"}, `client/(encode_decode|websocket)\.go: undefined: New\w+`},
 	{"alias-streaming-payload", "alias-streaming-payload", []string{"build-error"}, []string{"type-mismatch"}, `variable of type \*?(svc\.)?A\w+\) as (svc\.)?A\w+ value`},
-	{"alias-in-param", "alias-in-param", []string{"build-error", "gen-error"}, nil, `svc\.A\w+|as svc\.\w+ value|variable of type any|to type svc\.\w+|expected selector or type assertion|declared and not used: \w+raw`},
+	{"alias-in-param", "alias-in-param", []string{"build-error", "gen-error"}, nil, `svc\.A\w+|as svc\.\w+ value|variable of type any|to type svc\.\w+|expected selector or type assertion|declared and not used: \w+raw|cli\.go: cannot use &\w+ \(value of type \*\w+\) as \w+ value`},
 	{"nested-inline-object", "nested-inline-object", []string{"build-error"}, []string{"type-mismatch", "undefined"}, `struct\s*\{|StructX|undefined: (un)?marshal|undefined: [A-Z]`},
 	{"primitive-payload-in-header", "primitive-payload-in-header", []string{"build-error"}, []string{"unused-variable", "undefined"}, `client/encode_decode\.go: declared and not used: p$`},
 	{"two-schemes-same-kind", "two-schemes-same-kind", []string{"build-error"}, []string{"redeclared", "type-mismatch", "undefined"}, `auth\w+Fn redeclared|duplicate method \w+Auth`},
